@@ -57,6 +57,7 @@ EventsOf(a) ==
                       -> {[a |-> a, p |-> p] : p \in Pfxs}
       [] a \in {"Clear", "Iter", "Len", "CloneCheck", "Collect", "Serde"} -> {[a |-> a]}
       [] a = "ViewDesc" -> {[a |-> a, p |-> p] : p \in Pfxs}
+      [] a = "SplitOp" -> {[a |-> a, p |-> p, op |-> o] : p \in Pfxs, o \in {"Union", "Inter", "Diff", "CovDiff"}}
       [] a = "Alias" -> {[a |-> a, p |-> p, how |-> w] : p \in Pfxs, w \in {"iter", "split", "split_union"}}
       [] a = "Find" -> {[a |-> a, p |-> p, q |-> q, kind |-> k] :
                            p \in Pfxs, q \in Pfxs, k \in {"find", "find_exact", "find_lpm"}}
